@@ -15,7 +15,7 @@ import (
 type c04Case struct {
 	TV
 	Cell    string `json:"cell,omitempty"`
-	LenSeed []int  `json:"lens"` // drawn offsets used to pick sampled buffer lengths
+	LenSeed []int  `json:"lens"`  // drawn offsets used to pick sampled buffer lengths
 	Spare   int    `json:"spare"` // spare capacity behind len(buf)
 }
 
